@@ -3,6 +3,7 @@ import Yaep.Model.Api
 import Yaep.Model.ReadGrammar
 import Yaep.Model.GotoCache
 import Yaep.Model.Descr
+import Yaep.Props.CodeTable
 /-!
 # The constants the model uses are the ones the sources define now
 
@@ -119,5 +120,10 @@ theorem generated_sgramm_trans_actions :
 theorem generated_sgramm_first_code :
     assignCodes [⟨"a", -1⟩] [⟨"a", -1⟩] Generated.sgrammFirstImplicitCode.toNat = [("a", 256)] ∧
     Generated.sgrammFirstImplicitCode = 256 := by decide
+
+/-- the threshold of the dense code table is the value the judge (and `CT.find_spec`) use, and it
+meets the size condition of `CT.Pre` -/
+theorem generated_code_table_size :
+    Generated.symbCodeTransVectSize = 10000 ∧ (10000 : Nat) ≤ 2147483647 := by decide
 
 end Yaep
